@@ -175,3 +175,20 @@ for _p in ('C01', 'C02', 'C06', 'C07', 'C11', 'C13'):
 PROPS['C09'].update(run_files=['Tie.v', 'TieWf.v', 'PropsC09.v'], static_files=MACH_STATIC)
 PROPS['C10'].update(run_files=['Tie.v', 'TieWf.v', 'PropsC10.v'], static_files=MACH_STATIC)
 PROPS['C14'].update(run_files=['Tie.v', 'TieWf.v', 'PropsC14.v'], static_files=MACH_STATIC)
+
+P('C18', suites=[], run_files=['Tie.v', 'TieGlobals.v'], gen_files=['gen/GenGlobals.v'], static_files=BASE_STATIC + ['Footprint.v'], extras=[extra_race],
+  trusted=['the Go memory model below the footprint abstraction, sync.Pool internals and the scheduler are not modelled; the race detector observes only the schedules that occur'])
+T('C18', 'PARTIAL: proof-of-model + measurement. Coq: generic theorem that threads writing only locations they own and reading only those plus never-written ones are race-free and compute their solo results under every interleaving (Footprint.v), instantiated with the computed fact that every access to a package-level variable in the regenerated access inventory is read-only (TieGlobals.v); run time: the whole API from 16 goroutines on shared read-only inputs under the Go race detector, results compared with sequential ones',
+  _TIE + 'Mutable state lives only in caller-owned Buffer / ValueReader (its sync.Pool is per reader) / destination slices: by inspection of the models, every function takes its state explicitly.', 'Coq non-interference theorem + regenerated global-access facts + race-detector run')
+
+VR_STATIC = MACH_STATIC + ['ValueReader.v', 'Compat.v', 'CompatFacts.v']
+P('C03', suites=['c03'], run_files=['Tie.v', 'TieWf.v', 'TieFast.v'], static_files=VR_STATIC, oracle=True,
+  trusted=['encoding/json (Decoder.Decode into interface{}) as oracle after StdLibCompatible*; documents with post-replacement key collisions are skipped (counted)',
+           'functional extensionality only in run/TieFast.v (transport of the indexed-table evaluator the driver runs)'])
+P('C08', suites=['c08'], run_files=['Tie.v', 'TieWf.v', 'TieFast.v'], static_files=VR_STATIC, oracle=True,
+  trusted=['oracle = direct whole-value decoding (ReadValue) of the implementation itself: the property is a consistency statement between API paths'])
+P('C15', suites=['c15'], run_files=['Tie.v', 'TieWf.v', 'TieFast.v'], static_files=VR_STATIC, oracle=True,
+  trusted=['oracle = the same calls on brand-new readers; stability of earlier results is checked at run time by deep comparison with snapshots, also after the caller scribbles over later results'])
+T('C03', 'Coq model of ValueReader (handler of the regenerated handler machines, depth counter, key unescaping, null rejection) validated against the implementation on generated trees (both the faithful and the accelerated evaluator) and against encoding/json; PARTIAL: the tree theorem is stated on the model, the grammar link of the handler machines is by simulation with the spec machines', _TIE, 'Coq model + correspondence (impl vs model vs encoding/json)')
+T('C08', 'composition decoders written against the public API only, driven by a per-value strategy function shared by the Go harness and the OCaml driver over the model; final offsets and trees compared with direct decoding', _TIE, 'Coq model + strategy-interpreter correspondence')
+T('C15', 'the model of ReadValue/ReadObject/ReadArray is a pure function (no reader state influences results), so reuse-equals-fresh is immediate on the model; histories on one reader are compared with fresh readers and earlier results are checked for stability at run time', _TIE + 'Aliasing of returned maps/slices with reader-owned memory is a run-time observation (heap not modelled).', 'Coq model + history correspondence + run-time stability checks')
